@@ -93,6 +93,49 @@ fn perform(call: &str, shared: &OpeningHours) -> String {
             let e = opening_hours_syntax::parse("Mo 10:00-12:00 ; Tu 10:00-12:00 ; We-Fr 09:00-12:00, 14:00-18:00 ; Sa off \"c\"").unwrap();
             format!("{} {}", e.clone().normalize(), shared.normalize())
         }
+        "clone_ctx_switch" => {
+            // one parsed expression, clones evaluated alternately under two holiday contexts at the same instants;
+            // every answer must be the one of an isolated, freshly parsed expression with that context
+            let src = "10:00-12:00 ; PH off";
+            let base = OpeningHours::parse(src).unwrap();
+            let fr = base.clone().with_context(Context::default().with_holidays(Country::FR.holidays()));
+            let us = base.clone().with_context(Context::default().with_holidays(Country::US.holidays()));
+            let t = dt("2020-07-14 11:00");
+            let d = NaiveDate::from_ymd_opt(2020, 7, 14).unwrap();
+            let inter = format!(
+                "{:?} {:?} {:?} {:?} {:?} {:?} {:?}",
+                us.state(t), fr.state(t), us.schedule_at(d), fr.schedule_at(d), fr.next_change(t), us.next_change(t), base.state(t)
+            );
+            let iso = |h: opening_hours::ContextHolidays| OpeningHours::parse(src).unwrap().with_context(Context::default().with_holidays(h));
+            let (ifr, ius, ibase) = (iso(Country::FR.holidays()), iso(Country::US.holidays()), OpeningHours::parse(src).unwrap());
+            let isolated = format!(
+                "{:?} {:?} {:?} {:?} {:?} {:?} {:?}",
+                ius.state(t), ifr.state(t), ius.schedule_at(d), ifr.schedule_at(d), ifr.next_change(t), ius.next_change(t), ibase.state(t)
+            );
+            format!("{} {}", if inter == isolated { "CONSISTENT" } else { "INCONSISTENT" }, inter)
+        }
+        "clone_locale_switch" => {
+            let src = "sunrise-sunset";
+            let base = OpeningHours::parse(src).unwrap();
+            let mk = |o: &OpeningHours, c: Coordinates| o.clone().with_context(Context::default().with_locale(TzLocation::new(chrono_tz::UTC).with_coords(c)));
+            let (a, b) = (mk(&base, paris()), mk(&base, tokyo()));
+            let d = NaiveDate::from_ymd_opt(2024, 6, 21).unwrap();
+            let inter = format!("{:?} {:?} {:?}", a.schedule_at(d), b.schedule_at(d), a.schedule_at(d));
+            let fresh = OpeningHours::parse(src).unwrap();
+            let fresh2 = OpeningHours::parse(src).unwrap();
+            let isolated = format!("{:?} {:?} {:?}", mk(&fresh, paris()).schedule_at(d), mk(&fresh2, tokyo()).schedule_at(d), mk(&fresh, paris()).schedule_at(d));
+            format!("{} {}", if inter == isolated { "CONSISTENT" } else { "INCONSISTENT" }, inter)
+        }
+        "interleave_exprs" => {
+            let a = OpeningHours::parse("Mo-Fr 10:00-18:00").unwrap();
+            let b = OpeningHours::parse("Mo-Fr 12:00-14:00 unknown ; easter off").unwrap();
+            let t = dt("2024-06-03 13:00");
+            let first = format!("{:?} {:?}", a.state(t), a.next_change(t));
+            let _ = (b.state(t), b.next_change(t), b.schedule_at(t.date()));
+            let again = format!("{:?} {:?}", a.state(t), a.next_change(t));
+            let bb = format!("{:?} {:?}", b.state(t), b.next_change(t));
+            format!("{} {first} {bb}", if first == again { "CONSISTENT" } else { "INCONSISTENT" })
+        }
         other => panic!("unknown call {other}"),
     }
 }
